@@ -44,7 +44,7 @@ Perturb(s) == ({<<>>, <<"a">>, s \o <<"a">>, <<"a">> \o s} \cup {SubSeq(s, 1, Le
 Init == str = <<>>
 Next == Len(str) < MaxLen /\ \E i \in 1..Len(Alpha) : str' = Append(str, Alpha[i])
 
-Emit == PrintT(<<"CASE", ToJson([s |-> str, sq |-> SQ(str), dq |-> DQ(str), bs |-> BS(str), mix |-> MIX(str)])>>)
+Emit == PrintT(<<"CASE", ToJson([s |-> str, sq |-> SQ(str), dq |-> DQ(str), bs |-> BS(str), mix |-> MIX(str), pert |-> SetToSeq(Perturb(str))])>>)
 
 (***************************************************************************)
 (* Property predicate.  rec.s the string; rec.obs[style][mode] the fields   *)
@@ -62,7 +62,8 @@ PatternOK(s, pat) ==
 
 StyleOK(s, o) ==
     /\ \A m \in 1..Len(PlainModes) : o[PlainModes[m]] = <<s>>          \* exactly one field, equal to s
-    /\ Len(o.pattern) = 1 /\ PatternOK(s, o.pattern[1])
+    /\ Len(o.pattern) = 1 /\ PatternOK(s, o.pattern[1])               \* by the reference matcher, on the text of the pattern
+    /\ o.realmatch = << <<"self">> >>                                       \* and by pattern.Match itself: s and none of its perturbations
 
 Holds(rec) == /\ rec.panic = ""
               /\ \A i \in 1..Len(Styles) : StyleOK(rec.s, rec.obs[Styles[i]])
